@@ -15,6 +15,7 @@ from facts import Place, Operand
 from cfg import CFG
 from paths import Explorer, place_key
 from expr import ExprBuilder
+import pairing
 
 NON_OWNING = ('std::sync::mpsc::SyncSender<', 'std::sync::mpsc::Sender<', 'std::sync::mpmc::', 'std::thread::JoinHandle<',
               '{closure@', 'adlt::utils::DltFileInfos', 'std::option::Option<std::thread::JoinHandle<')
@@ -64,7 +65,7 @@ class OwnSpec:
     """per-function parameters of the linearity rule"""
 
     def __init__(self, allow_drop=(), allow_lossy=(), allow_consumer=(), allow_clone=(), excuse_edges=(), per_msg_facts=(),
-                 drain_inside=(), stmt_facts=(), cond_facts=()):
+                 drain_inside=(), stmt_facts=(), cond_facts=(), stmt_counts=(), track_msg_events=False):
         # allow_drop: list of (matcher(place_show, ty) -> bool, required_fact or None, reason)
         self.allow_drop = list(allow_drop)
         self.allow_lossy = list(allow_lossy)        # (callee regex, reason)
@@ -74,11 +75,18 @@ class OwnSpec:
         self.excuse_edges = list(excuse_edges)
         self.per_msg_facts = set(per_msg_facts)
         self.drain_inside = list(drain_inside)
+        # reset_takes: predicate(root_show, callee) selecting which take sites start a new message (default all)
+        self.reset_takes = None
         # stmt_facts: list of (predicate(stmt, body) -> bool, fact name): fact is set when the statement executes
         self.stmt_facts = list(stmt_facts)
         # cond_facts: list of (predicate(expr) -> bool, truth, fact): fact is set on the edge of a switch
         # over a matching boolean expression where the expression is true (truth=True) / false
         self.cond_facts = list(cond_facts)
+        # stmt_counts: like stmt_facts but counted: ('n', name, k) facts, k capped at 2
+        self.stmt_counts = list(stmt_counts)
+        # track_msg_events: set per-message facts ('recvd',) on the non-empty edge of a take and count
+        # ('n','sent',k) at SEND and ('n','stored',k) at STORE call blocks
+        self.track_msg_events = track_msg_events
 
 
 class OwnResult:
@@ -174,7 +182,15 @@ def analyse(body, spec=None, carries=lambda ty, cm: cm, track_all_vars=False):
             if not any(re.search(rx, path) for rx, _ in spec.allow_consumer):
                 res.consumers.append({'block': b.i, 'callee': path or t.func.show(body), 'arg': moved_cm[0].show(body), 'sp': t.sp})
 
-    per_msg = spec.per_msg_facts
+    per_msg = set(spec.per_msg_facts)
+    if spec.track_msg_events:
+        per_msg |= {'recvd', 'sent', 'stored'}
+    send_blocks = set(send_dest.values())
+    spec.reset_takes_blocks = set()
+    if spec.reset_takes is not None:
+        for bi, ti in take_info.items():
+            if spec.reset_takes(ti[3].show(body), body.blocks[bi].term.callee.path):
+                spec.reset_takes_blocks.add(bi)
     EB = ExprBuilder(cfg)
 
     def block_effect(b, facts):
@@ -193,9 +209,19 @@ def analyse(body, spec=None, carries=lambda ty, cm: cm, track_all_vars=False):
         if b.i in store_info:
             rk = store_info[b.i]
             facts = frozenset(f for f in facts if not (f[0] == 'drained' and (covers(f[1], rk) or covers(rk, f[1]))))
-        if b.i in take_info and per_msg:
+        if b.i in take_info and per_msg and (spec.reset_takes is None or b.i in spec.reset_takes_blocks):
             # a new message is being received: per-message excuses end here
-            facts = frozenset(f for f in facts if f[0] not in per_msg)
+            facts = frozenset(f for f in facts if not (f[0] in per_msg or (f[0] == 'n' and f[1] in per_msg)))
+        if spec.stmt_counts:
+            for s in b.stmts:
+                for (pred, name) in spec.stmt_counts:
+                    if pred(s, body):
+                        facts = pairing.bump(facts, name)
+        if spec.track_msg_events:
+            if b.i in send_blocks:
+                facts = pairing.bump(facts, 'sent')
+            if b.i in store_info:
+                facts = pairing.bump(facts, 'stored')
         if spec.stmt_facts:
             for s in b.stmts:
                 for (pred, fact) in spec.stmt_facts:
@@ -222,6 +248,9 @@ def analyse(body, spec=None, carries=lambda ty, cm: cm, track_all_vars=False):
                         if f[1] == dk and f[2] == ev and ('drained', rk) not in facts:
                             add = add or set()
                             add.add(('drained', rk))
+                        if spec.track_msg_events and f[1] == dk and f[2] != ev and ('recvd',) not in facts:
+                            add = add or set()
+                            add.add(('recvd',))
             if add:
                 facts = frozenset(facts | add)
         if spec.cond_facts and b.term.k == 'switch':
@@ -259,6 +288,9 @@ def analyse(body, spec=None, carries=lambda ty, cm: cm, track_all_vars=False):
     res.states = ex.n_states
     res.explorer = ex
     res.cfg = cfg
+    res.take_info = take_info
+    res.send_blocks = send_blocks
+    res.store_info = store_info
 
     # LIVE-DROP
     for b in blocks:
